@@ -17,7 +17,6 @@ from __future__ import annotations
 """Service-related policy factories."""
 
 # pylint:disable=g-import-not-at-top
-import functools
 import time
 
 from vizier import pythia
@@ -75,9 +74,14 @@ class DefaultPolicyFactory(pythia.PolicyFactory):
       from vizier._src.algorithms.designers import grid
 
       shuffle_seed = int(time.time())
-      grid_factory = functools.partial(
-          grid.GridSearchDesigner.from_problem, shuffle_seed=shuffle_seed
-      )
+
+      def grid_factory(problem, seed=None):
+        # The policy passes seed=None unless it was given one; fall back to the
+        # time-based shuffle seed then (a restored designer reloads its own).
+        return grid.GridSearchDesigner.from_problem(
+            problem, seed=shuffle_seed if seed is None else seed
+        )
+
       return dp.PartiallySerializableDesignerPolicy(
           problem_statement,
           policy_supporter,
